@@ -178,6 +178,10 @@ func (s *Seq) checkLayout0(ctx string) {
 	if !s.quiescent {
 		return
 	}
+	if s.Cfg.Async || s.smallAsync {
+		// a flusher commits periodically: let a commit that is in flight at this instant finish
+		s.W.Settle()
+	}
 	dir := CollDir(s.Root, s.Cfg.Lower)
 	objs, stray, err := DiskObjects(s.W.FS, dir, s.Cfg.Ext, s.Cfg.Compress)
 	if err != nil {
